@@ -426,19 +426,12 @@ def r6(cx, rec):
     for sbb in sorts:
         e = R.expr_call(sbb)
         name = e[4].get('name')
-        clo = [y for y in walk(e) if y[0] == 'closure']
+        clo = [y for y in e[2][1:] if y[0] == 'closure']
         desc = None
         if clo and name in ('sort_by', 'sort_unstable_by'):
-            cf = F.fn(clo[0][1])
-            for b2 in mirq.real_calls(cf):
-                x = cf.expr_call(b2)
-                if x[4].get('name') == 'cmp':
-                    a, b = show(x[2][0]), show(x[2][1])
-                    # parameters are arg2 (first) and arg3 (second)
-                    m1, m2 = re.match(r'arg(\d)\.1', a), re.match(r'arg(\d)\.1', b)
-                    if m1 and m2:
-                        desc = int(m1.group(1)) > int(m2.group(1))
-                    rec.site(cf, b2, 'comparator %s.cmp(%s) -> descending=%s' % (a, b, desc))
+            asc = C.cmp_orientation(F, clo[0][1], '1')
+            desc = None if asc is None else (not asc)
+            rec.site(F.fn(clo[0][1]), None, 'comparator descending in the rate: %s' % desc)
         elif clo and name in ('sort_by_key', 'sort_unstable_by_key'):
             cf = F.fn(clo[0][1])
             desc = any(y[0] == 'agg' and (y[2] or '').endswith('Reverse') for b2, s2, s in cf.assigns() for y in walk(cf.expr_rvalue(s['rv'])))
